@@ -96,8 +96,6 @@ def gen(shard, tier):
             comp = comps[i]
             for k in (0, 1, 2):
                 for sub in itertools.combinations(names, k):
-                    if 'output_masses_for_neutron_offset' in sub and 'use_neutron_count' not in sub:
-                        continue
                     for vals in itertools.product(*[OPTS[a] for a in sub]):
                         yield {'kind': 'ident', 'comp': comp, 'opts': dict(zip(sub, vals))}, k, True
     else:
@@ -187,6 +185,18 @@ def check(case, ctx):
         st, m = lib.call(p.merge_isotopic_distributions, [(100.004, 1.0)], [(100.0041, 1.0)], precision=3)
         if st != 'ok' or [tuple(x) for x in m] != [(100.004, 2.0)]:
             ctx.fail('merge-precision', [(100.004, 2.0)], m)
+        # every pattern is binned alike (also the first one), equal masses inside one pattern add, order is irrelevant
+        fine = [(100.0041, 1.0), (100.0044, 0.5), (101.2, 0.25)]
+        coarse = [(100.004, 1.0), (101.2004, 0.25)]
+        exp = [(100.004, 2.5), (101.2, 0.5)]
+        for args in ((fine, coarse), (coarse, fine), (fine + coarse,), ([], fine, coarse)):
+            st, m = lib.call(p.merge_isotopic_distributions, *[list(a) for a in args], precision=3)
+            ctx.evals += 1
+            if st != 'ok' or [(round(x, 9), round(y, 9)) for x, y in m] != exp:
+                ctx.fail('merge-precision', exp, m, args=[list(a) for a in args])
+        st, m = lib.call(p.merge_isotopic_distributions, [(100.0, 1.0), (100.0, 2.0)], [(100.0, 0.5)])
+        if st != 'ok' or [tuple(x) for x in m] != [(100.0, 3.5)]:
+            ctx.fail('merge-repeated-mass', [(100.0, 3.5)], m)
         for comps in (({'C': 2, 'H': 6}, {'C': 2, 'H': 6}), ({'C': 1}, {'N': 1, 'H': 3}), ({'S': 2}, {'S': 2}, {'S': 2})):
             ds = [p.isotopic_distribution(dict(c)) for c in comps]
             st, m = lib.call(p.merge_isotopic_distributions, *[list(d) for d in ds])
